@@ -61,6 +61,8 @@ def x_neighbours(cx: int, cy: int, cz: int, r: int, incl: bool, as_id: bool) -> 
 
 def _x_neighbours(cx, cy, cz, r, incl, as_id):
     shape, kind = tuple(hx.P['shape']), hx.P['kind']
+    if 'centre' in hx.P:
+        cx, cy, cz = hx.P['centre']        # plain Python numbers (library calls returning numpy scalars behave differently on proxies)
     w, h, d = shape
     if not (0 <= cx < max(w, 1) and 0 <= cy < max(h, 1) and 0 <= cz < max(d, 1)):
         return hx.end(True)
@@ -68,6 +70,13 @@ def _x_neighbours(cx, cy, cz, r, incl, as_id):
     if lo is not None and not (lo <= cx <= hi and lo <= cy <= hi and lo <= cz <= hi):
         return hx.end(True)
     env = _world(shape)
+    if hx.P.get('with_component'):
+        # the world carries cell components (the usual case): they are not cells
+        ncell = max(w, 1) * max(h, 1) * max(d, 1)
+        env.add_cell_component("rain", [k for k in range(ncell)])
+        env.add_cell_component("soil", [7] * ncell)
+    if 'radius' in hx.P:
+        r = hx.P['radius']                  # a radius fixed by the partition: "unbounded" values such as sys.maxsize, 2**63, 2**70
     fn = env.get_moore_neighbours if kind == 'moore' else env.get_neumann_neighbours
     centre = (cx, cy, cz)
     if hx.P.get('centre_form') == 'id':         # the same centre given as its cell id (row of the world's own table)
@@ -251,6 +260,9 @@ def obligations(tier):
           parts=[{"kind": k, "N": NI, "ret": rt} for k in ("moore", "neumann") for rt in ("tuple", "int")], timeout=300, encoded=enc[:4]),
         X("x_neighbours", x_neighbours, parts=[{"shape": list(s), "kind": k, "R": 1 if tier == "quick" else 2} for s in shapes for k in ("moore", "neumann")] +
           [{"shape": sh, "kind": k, "R": 1, "centre_form": "id", "light": True} for sh in ([1, 4, 0], [2, 3, 2], [3, 5, 0]) for k in ("moore", "neumann")] +
+          [{"shape": [2, 3, 2], "kind": k, "R": 1, "radius": rr, "light": True} for k in ("moore", "neumann") for rr in (2 ** 63 - 1, 2 ** 63, 2 ** 70)] +
+          [{"shape": [2, 3, 2], "kind": k, "R": 1, "radius": rr, "centre": [1, 2, 1], "light": True} for k in ("moore", "neumann") for rr in (2 ** 63 - 1, 2 ** 64)] +
+          [{"shape": sh, "kind": k, "R": 3, "with_component": True, "light": True} for sh in ([2, 2, 0], [3, 1, 2]) for k in ("moore", "neumann")] +
           # one large world: windows of several hundred cells (a query over 9x9x9 cells clipped to 8x8x8)
           [{"shape": [8, 8, 8], "kind": k, "R": 4, "Rmin": 4, "centre_box": [3, 4], "light": True} for k in (("moore",) if tier == "quick" else ("moore", "neumann"))],
           labels=("nonempty",), timeout=900, group=1, encoded=enc[:2],
